@@ -142,6 +142,16 @@ func c09PlacementAs(p *model.Prog, r *report.Result, r4, r5 string) {
 					}
 				}
 			}
+			// adaptation_field_length written from a computed size: packet[4] = uint8(X)
+			if cv, ok := st.Val.(*ssa.Convert); ok {
+				if ia, ok := st.Addr.(*ssa.IndexAddr); ok && isPacket(ia.X) {
+					if k, isK := model.ConstInt(ia.Index); isK && k == 4 {
+						if _, isC := cv.X.(*ssa.Const); !isC {
+							out = append(out, po.ExtraOb{Kind: "ts-adaptation-length", Expr: "adaptation_field_length", Goals: []po.Ineq{{L: lin(cv.X), Why: "adaptation_field_length >= 0 (a packet that gets the adaptation flag has at least the length byte inserted)"}}})
+						}
+					}
+				}
+			}
 			// PES_packet_length high byte: uint8(X >> 8) stored next to uint8(X & 0xFF)
 			if cv, ok := st.Val.(*ssa.Convert); ok {
 				if sh, ok := cv.X.(*ssa.BinOp); ok && sh.Op == token.SHR {
@@ -155,7 +165,7 @@ func c09PlacementAs(p *model.Prog, r *report.Result, r4, r5 string) {
 		}
 		return out
 	}
-	kinds := map[string]bool{"ts-payload-end": true, "ts-stuffing-range": true, "ts-pes-length-fits": true}
+	kinds := map[string]bool{"ts-payload-end": true, "ts-stuffing-range": true, "ts-pes-length-fits": true, "ts-adaptation-length": true}
 	_, n := runPO(p, r, poConfig{rule: r4, roots: []*ssa.Function{pack}, filter: func(fn *ssa.Function) bool { return fn == pack }, kinds: kinds, extra: extra})
 	if n < 4 {
 		r.Bad(r4, "floor", p.Pos(pack.Pos()), "fewer than 4 placement obligations generated for Frame.Pack")
